@@ -142,6 +142,44 @@ func (e *Eng) evalPureSide(fn *ssa.Function, args []Val, taint []bool, bind []Va
 		}
 		return c
 	}
+	nameV := func(t types.Type, v Val) Val {
+		if e.binderDepth > 0 {
+			return v
+		}
+		nm := func(x T, sort string) T {
+			if len(x) <= compactLimit {
+				return x
+			}
+			c := e.fresh("sv", sort)
+			if !e.collect {
+				e.q.Assert(tEq(c, x))
+			}
+			return c
+		}
+		switch x := v.(type) {
+		case T:
+			if cs := comps(t); len(cs) == 1 {
+				return nm(x, cs[0].sort)
+			}
+		case *StrV:
+			if x.Lit == nil {
+				return &StrV{B: nm(x.B, sRef), O: nm(x.O, sI64), L: nm(x.L, sI64)}
+			}
+		case *SliceV:
+			return &SliceV{nm(x.B, sRef), nm(x.O, sI64), nm(x.L, sI64), nm(x.C, sI64)}
+		case *IfaceV:
+			nx := *x
+			nx.Ty, nx.V = nm(x.Ty, sTag), nm(x.V, sRef)
+			return &nx
+		case *PtrV:
+			if x.Kind != pLocal && x.Kind != pGlobal {
+				nx := *x
+				nx.Ref = nm(x.Ref, sRef)
+				return &nx
+			}
+		}
+		return v
+	}
 	reach := map[*ssa.BasicBlock]T{}
 	edgeCond := map[[2]int]T{} // (from,to,k) approximated by from*N+succIdx
 	type retT struct {
@@ -190,6 +228,8 @@ func (e *Eng) evalPureSide(fn *ssa.Function, args []Val, taint []bool, bind []Va
 				}
 				if bt, isT := v.(T); isT && isBool(in.Type()) {
 					v = nameB(bt)
+				} else {
+					v = nameV(in.Type(), v)
 				}
 				fr.vals[in] = v
 				if tainted {
@@ -244,6 +284,13 @@ func (e *Eng) evalPureSide(fn *ssa.Function, args []Val, taint []bool, bind []Va
 	for i := len(rets) - 2; i >= 0; i-- {
 		v = iteVal(rt, rets[i].cond, rets[i].v, v)
 		t = t || rets[i].t
+	}
+	if len(rets) > 1 {
+		if bt, isT := v.(T); !(isT && isBool(rt)) {
+			v = nameV(rt, v)
+		} else {
+			v = nameB(bt)
+		}
 	}
 	return v, t, pr
 }
@@ -1126,6 +1173,9 @@ func (e *Eng) evalModSpecVars(fc *FuncContract, m *ModSpec, args []Val, vars map
 		obj = iv
 	}
 	if m.Kind == "object" {
+		if ot == nil {
+			ot = iv.StaticI
+		}
 		return []modTarget{{kind: "object", ref: ghostKey(obj), typ: ot}}
 	}
 	if inner, ok := obj.(*IfaceV); ok {
@@ -1207,6 +1257,12 @@ func (e *Eng) applyMod(fr *Frame, st, old *State, instr ssa.Instruction, fc *Fun
 					tn := n[2:]
 					tn = tn[:strings.LastIndex(tn, "|")]
 					if t.typ != nil {
+						if it, ok := under(t.typ).(*types.Interface); ok && it.NumMethods() > 0 {
+							// interface-typed object: its dynamic type implements the interface
+							if nt := e.w.namedType(tn); nt != nil && !types.Implements(types.NewPointer(nt), it) && !types.Implements(nt, it) {
+								continue
+							}
+						}
 						if pt, ok := under(t.typ).(*types.Pointer); ok {
 							if _, ok := under(pt.Elem()).(*types.Struct); ok {
 								// statically typed object: only the field heaps of that struct type
@@ -2255,4 +2311,24 @@ func (w *World) immutableHeap(heapName string) bool {
 		base = heapName[:i+1+j]
 	}
 	return w.immut[base]
+}
+
+
+// namedType finds a named type by "pkgpath.Name" among all loaded packages (nil if unknown).
+func (w *World) namedType(name string) types.Type {
+	w.namedOnce.Do(func() {
+		w.named = map[string]types.Type{}
+		for _, p := range w.Prog.AllPackages() {
+			if p.Pkg == nil {
+				continue
+			}
+			sc := p.Pkg.Scope()
+			for _, n := range sc.Names() {
+				if tn, ok := sc.Lookup(n).(*types.TypeName); ok && !tn.IsAlias() {
+					w.named[p.Pkg.Path()+"."+n] = tn.Type()
+				}
+			}
+		}
+	})
+	return w.named[name]
 }
